@@ -58,6 +58,13 @@ theorem assignments_are_init_or_setter :
 theorem setter_not_called_by_library :
     (callersOfWriters.filter (fun c => c.1 == "SetParseErrorLanguage")) = [] := by decide
 
+/-- REGENERATED FACT: the one mutable package-level setting (the legacy default language) is READ only by the legacy
+    package-level formatter — the per-VM formatter that Parse installs never looks at it, so no VM's messages depend on
+    what another VM, or the host through the public setter, did to the package-level value -/
+theorem shared_language_read_only_by_legacy_formatter :
+    (touches.filter (fun t => t.1 == "parseErrorLanguage" && t.2.2 == "mention")).map (fun t => t.2.1) =
+      ["formatFriendlyError"] := by decide
+
 /-- REGENERATED FACT: the package-level random source is only used by Roll (fallback for unseeded contexts) and
     GetCurSeed, and both take randSourceMu -/
 theorem global_source_is_locked :
